@@ -1,5 +1,5 @@
 (* Properties_C10.v — a provider never speaks for names it has not verified. *)
-From QV Require Import Base Fields SrcFacts Msg SrcDecisions Cache CacheSpec Sim Prober Hostname Provider ProviderSpec ProviderProofs ProviderListener ProviderConverge.
+From QV Require Import Base Fields SrcFacts Msg SrcDecisions Cache CacheSpec Sim Prober Hostname Provider ProviderSpec ProviderProofs ProviderListener ProviderConverge ProviderGoodbye.
 Local Open Scope Z_scope.
 
 (* In every state of the provider / hostname / prober composite reachable by ANY sequence of handler invocations
@@ -65,7 +65,7 @@ Proof.
   - exfalso. destruct a as [| |s|].
     + cbn [fst] in C1. congruence.
     + cbn [fst cp_prov] in C1. destruct (h_reg (cp_host c)); cbn in C1; discriminate.
-    + destruct (pv_exists (cp_prov c)); [|cbn [fst] in C1; congruence]. unfold prov_update in C1.
+    + destruct (pv_exists (cp_prov c)); [|cbn [fst] in C1; congruence]. rewrite prov_update_eq in C1. unfold prov_update_old in C1.
       set (p := set_prov (cp_prov c) true (pv_confirmed (cp_prov c))) in *.
       match type of C1 with context [if negb (match bs_data (r_target (pv_srvP ?q)) with [] => true | _ :: _ => false end) then _ else _] => set (p1 := q) in * end.
       assert (E : pv_confirmed p1 = false) by (unfold p1, p; cbn; exact C0).
@@ -78,3 +78,27 @@ Print Assumptions C10_only_a_completed_probe_confirms.
 (* The clauses "nonzero-TTL records carry the latest confirmed instance name" and "every goodbye names records announced
    before" follow from the listener invariant of C13 (what is announced is what is served; a goodbye empties the listener)
    and are also enforced on every run by the extracted acceptor mon_provider (codes 10, 11, 12, 14). *)
+
+(* the decisions of Provider::update (is there a target yet, must the name be probed, is a probe for this very name
+   pending, do the records point at a previous hostname) and the entry guard of onMessageReceived are regenerated from
+   provider.cpp on every run (SrcDecisions.v); the model calls the generated definitions, and they are what the theorems
+   of C10 - C13 were proved against (prov_update_old / prov_on_message_old in ProviderProofs.v spell that shape out): *)
+Theorem C10_decisions_read_from_the_source :
+  (forall c s, prov_update c s = prov_update_old c s) /\ (forall p m, prov_on_message p m = prov_on_message_old p m).
+Proof. exact (conj prov_update_eq prov_on_message_eq). Qed.
+Print Assumptions C10_decisions_read_from_the_source.
+
+(* The clause "every goodbye names records announced before", for every history of the hostname + provider + prober
+   composite: read in order against the passive RFC 6762 listener of C13 (which holds what was announced with a nonzero
+   TTL and not withdrawn since), every TTL-0 record of every multicast response of every handler invocation has the
+   data of a record the listener holds at that moment. *)
+Theorem C10_every_goodbye_names_an_announced_record c L now ev :
+  lreach c L -> one_provider c ev -> gb_ok L (snd (comp_handle now c ev)).
+Proof. exact (goodbyes_name_announced_records c L now ev). Qed.
+Print Assumptions C10_every_goodbye_names_an_announced_record.
+
+(* gb_ok is not trivially true: a goodbye heard by a listener that holds nothing is rejected *)
+Example C10_goodbye_for_nothing_is_rejected : ~ gb_ok [] (snd (farewell prov_new)).
+Proof.
+  intros [H _]. destruct (H eq_refl (set_ttl 0 (pv_ptr prov_new))) as (r' & [] & _); [left; reflexivity|reflexivity].
+Qed.
